@@ -623,9 +623,13 @@ def check_adm(ctx, case):
     title, cls, name, paras, tail = case["title"], case["cls"], case["name"], case["paras"], case["tail"]
     attrs = [("class", cls)] + ([("name", name)] if name is not None else [])
     a_text = "<div" + "".join(" " + attr_html(k, v) for k, v in attrs) + ">\n"
+    # the title element: <p> or <div> whose classes contain "title" (docs/syntax/optional.md) or "admonition-title" (the class
+    # docutils / Sphinx give the title in their own HTML output); leading white space of the body is not significant
+    ttag, tcls = case.get("ttag", "p"), case.get("tcls", "title")
+    indent = case.get("indent", "") if not paras else ""
     if title is not None:
-        a_text += '<p class="title">%s</p>\n' % title
-    a_text += "".join("<p>%s</p>\n" % p for p in paras) + (tail + "\n" if tail else "") + "</div>\n"
+        a_text += '<%s class="%s">%s</%s>\n' % (ttag, tcls, title, ttag)
+    a_text += "".join("<p>%s</p>\n" % p for p in paras) + (indent + tail + "\n" if tail else "") + "</div>\n"
     body = "\n\n".join(paras + ([tail] if tail else []))
     b_text = "~~~{admonition} %s\n:class: %s\n" % (title if title is not None else "Note", yaml_dq(cls))
     if name is not None:
@@ -719,6 +723,8 @@ SEED_CASES = [
     {"kind": "img", "attrs": [["src", "a.png"], ["alt", None]]},
     {"kind": "optline", "value": "a #b"},
     {"kind": "adm", "title": "A *t*", "cls": "admonition tip", "name": "n #1", "paras": ["para **b**"], "tail": "rest"},
+    {"kind": "adm", "title": "T", "cls": "admonition", "name": None, "paras": [], "tail": "only line", "ttag": "div",
+     "tcls": "admonition-title", "indent": "    "},
     {"kind": "raw", "text": "<div class=\"admonition\">\n<input disabled>\n</div>\n<span>x</span>\n"},
 ]
 
@@ -764,7 +770,9 @@ def search(ctx):
                 "cls": rng.choice(["admonition", "admonition tip", "admonition a-b"]),
                 "name": rng.choice([None, "n1", "a #b", "x: y", "'q'", "| p"]),
                 "paras": [rng.choice(["para **b**", "one *two*", "a `c` d"]) for _ in range(rng.randint(0, 2))],
-                "tail": rng.choice(["", "rest of it", "tail *t*"]), "img": rng.random() < 0.5}
+                "tail": rng.choice(["", "rest of it", "tail *t*"]), "img": rng.random() < 0.5,
+                "ttag": rng.choice(["p", "div"]), "tcls": rng.choice(["title", "title", "x title", "admonition-title"]),
+                "indent": rng.choice(["", "", "  ", "    ", "\t"])}
         if not case["paras"] and not case["tail"]:
             case["tail"] = "only line"          # an admonition without body is an error on both sides
         if run(case):
